@@ -421,16 +421,18 @@ def judgeMuxHist : Judge := liftJudge fun input obs => do
   let reqs ← parseReqs input obs
   let hist := (← getArr input "hist").toList
   -- the harness skips out-of-range indices; so does the model
-  let ops : List (Sum HGen HReq × Option Nat) := hist.filterMap fun h =>
+  let ops : List (MOp × Option Nat) := hist.filterMap fun h =>
     let i := (optInt h "i").toNat
-    if optInt h "i" < 0 then none
-    else match optStr h "op" with
-    | "reload" => (specs[i]?).map (fun g => (Sum.inl g, some i))
-    | "req" => (reqs[i]?).map (fun q => (Sum.inr q, none))
+    match optStr h "op" with
+    | "set" => if optStr h "name" == "" then none else some (MOp.set (optStr h "name") (optStr h "tag"), none)
+    | "del" => some (MOp.del (optStr h "name"), none)
+    | "reload" => if optInt h "i" < 0 then none else (specs[i]?).map (fun g => (MOp.reload g, some i))
+    | "req" => if optInt h "i" < 0 then none else (reqs[i]?).map (fun q => (MOp.req q, none))
     | _ => none
-  -- requests before the first reload are not executed by the harness (placeholder instance)
-  let ops := ops.dropWhile (fun o => match o.1 with | .inr _ => true | .inl _ => false)
-  let want := histServe (emptyGen "") (ops.map (·.1))
+  -- before the first reload the harness executes no request and has no mapper to change
+  let ops := ops.dropWhile (fun o => match o.1 with | .reload _ => false | _ => true)
+  let mapChanges := ops.any (fun o => match o.1 with | .set .. | .del _ => true | _ => false)
+  let want := mapServe (emptyGen "") [] (ops.map (·.1))
   let got := (← getArr obs "out").toList.map parseOutcome
   let ok := got == want
   -- classification: which single-aspect transitions happened, with which cache sizes, and was a
@@ -448,10 +450,20 @@ def judgeMuxHist : Judge := liftJudge fun input obs => do
     (if want.any (·.status == 403) then ["403"] else []) ++
     (if want.any (·.status == 503) then ["503"] else []) ++
     (if want.any (·.status == 200) then ["200"] else []) ++
-    (if cachedTrans then ["reload-keeps-cacheSize>0"] else [])
+    (if cachedTrans then ["reload-keeps-cacheSize>0"] else []) ++
+    (if ops.any (fun o => match o.1 with | .set .. => true | _ => false) then ["mapper-set-without-reload"] else []) ++
+    (if ops.any (fun o => match o.1 with | .del _ => true | _ => false) then ["mapper-del-without-reload"] else [])
+  let firstPair := (got.zip want).find? (fun (g, w) => g != w)
   let sig := if ok then "" else
     if got.length != want.length then "muxhist:truncated"
-    else "muxhist:response-not-of-current-generation"
+    else match firstPair with
+      | some (g, w) =>
+        if mapChanges && w.status == 503 && g.status == 200 then "mux:handler-after-delete"
+        else if mapChanges && g.status == 200 && w.status == 200 && g.handler != w.handler && g.path == w.path then
+          "mux:stale-handler-after-pipeline-update"
+        else if mapChanges && w.status == 200 && g.status == 503 then "mux:handler-missing-after-pipeline-create"
+        else "muxhist:response-not-of-current-generation"
+      | none => "muxhist:response-not-of-current-generation"
   return { agree := ok, spec := ok, expected := Json.arr (want.map outcomeJson).toArray, tags := tags,
            nontrivial := reloadIdx.length ≥ 2 && want.eraseDups.length ≥ 2, sig := sig,
            note := match firstBad with | some i => "first differing response: #" ++ toString i | none => "" }
